@@ -70,6 +70,20 @@ def write8 (a : Arch) (l : Loc8) (v : UInt8) : Arch :=
   | .reg r => { a with reg := a.reg.set8 r v }
   | .mem m => { a with bus := a.bus.writeByte (a.addrOf m) v }
 
+/- compiler-only replacement (`@[csimp]`, kernel-checked equal to the definition above): takes the owner of the
+   memory array apart first, so that the array is updated in place instead of being copied -/
+def write8Fast (a : Arch) (l : Loc8) (v : UInt8) : Arch :=
+  match l with
+  | .reg r => { a with reg := a.reg.set8 r v }
+  | .mem m =>
+    let addr := a.addrOf m
+    match a with
+    | ⟨reg, alt, bus, halt, int, nmi, im, iff1, iff2⟩ => ⟨reg, alt, bus.writeByte addr v, halt, int, nmi, im, iff1, iff2⟩
+
+@[csimp] theorem write8_eq_fast : @write8 = @write8Fast := by
+  funext a l v; cases l <;> rfl
+
+
 def readOp (a : Arch) : Op8 → UInt8
   | .loc l => a.read8 l
   | .imm n => n
@@ -78,6 +92,17 @@ def readOp (a : Arch) : Op8 → UInt8
 def pushWord (a : Arch) (w : UInt16) : Arch :=
   let sp := a.reg.sp - 2
   { a with reg := { a.reg with sp := sp }, bus := a.bus.writeWord sp w }
+
+/- compiler-only replacement (`@[csimp]`, kernel-checked equal to the definition above): takes the owner of the
+   memory array apart first, so that the array is updated in place instead of being copied -/
+def pushWordFast (a : Arch) (w : UInt16) : Arch :=
+  match a with
+  | ⟨reg, alt, bus, halt, int, nmi, im, iff1, iff2⟩ =>
+    ⟨{ reg with sp := reg.sp - 2 }, alt, bus.writeWord (reg.sp - 2) w, halt, int, nmi, im, iff1, iff2⟩
+
+@[csimp] theorem pushWord_eq_fast : @pushWord = @pushWordFast := by
+  funext a w; rfl
+
 
 /-- pop a word: (word at SP, SP := SP+2). -/
 def popWord (a : Arch) : UInt16 × Arch :=
@@ -107,6 +132,25 @@ def ldStep (up : Bool) (a : Arch) : Arch :=
   let bc' := bc - 1
   let reg := ((a.reg.setDE de').setHL hl').setBC bc'
   { a with bus := bus, reg := { reg with flags := Alu.ldiFlags bc' reg.flags } }
+
+/- compiler-only replacement (`@[csimp]`, kernel-checked equal to the definition above): takes the owner of the
+   memory array apart first, so that the array is updated in place instead of being copied -/
+def ldStepFast (up : Bool) (a : Arch) : Arch :=
+  let bc := a.reg.getBC
+  let de := a.reg.getDE
+  let hl := a.reg.getHL
+  let v := a.bus.readByte hl
+  let de' := if up then de + 1 else de - 1
+  let hl' := if up then hl + 1 else hl - 1
+  let bc' := bc - 1
+  let reg := ((a.reg.setDE de').setHL hl').setBC bc'
+  match a with
+  | ⟨_, alt, bus, halt, int, nmi, im, iff1, iff2⟩ =>
+    ⟨{ reg with flags := Alu.ldiFlags bc' reg.flags }, alt, bus.writeByte de v, halt, int, nmi, im, iff1, iff2⟩
+
+@[csimp] theorem ldStep_eq_fast : @ldStep = @ldStepFast := by
+  funext up a; rfl
+
 
 def cpStep (up : Bool) (a : Arch) : Arch :=
   let bc := a.reg.getBC
